@@ -6,10 +6,16 @@ algorithm stated in the example's docstring) and run on the real member; its per
 measure, must not exceed the value returned by the shipped wc_* function for that setting (CLARABEL), up to 1e-4
 relative.  Families: gradient descent (value and contraction), heavy ball, accelerated gradient, subgradient method,
 proximal point, proximal gradient, Frank-Wolfe, Halpern, Krasnoselskii-Mann, proximal point for monotone operators,
-optimistic gradient, past extragradient, Douglas-Rachford for operators.  Known extremal members (Huber functions with the
+optimistic gradient, past extragradient, Douglas-Rachford for operators; vf/checks/c09_more.py adds 41 more (quadratics,
+OGM, OGM-G, triple momentum, strongly convex AGM, ITEM, silver step sizes, exact line search, conjugate gradient, inexact
+gradient (with and without line search), cyclic and randomized coordinate descent, robust momentum, gradient descent through
+a linear operator, accelerated proximal point, FISTA, DRS (contraction and function values), three-operator splitting (both
+versions), proximal gradient on quadratics, SGD (two versions), SAGA, Point-SAGA, three more fixed-point iterations, three
+more monotone-inclusion methods, Polyak steps, the QG+ and RSI-EB classes, three potential functions).  Known extremal members (Huber functions with the
 worst-case knee, rotations, one-dimensional quadratics at mu / L, c|x|) are part of the generators.
 """
 import importlib
+import inspect
 import json
 import math
 
@@ -17,14 +23,16 @@ import numpy as np
 from hypothesis import strategies as st
 
 from vf import prog, members
+from vf.checks import c09_more
 
 PROP = "C09"
-CASES = {"quick": 12000, "thorough": 800000}
-RULE = ("family in 14 method families x parameters from a small grid inside the documented range (so that each bound is "
+CASES = {"quick": 20000, "thorough": 1200000}
+RULE = ("family in 56 method families x parameters from a small grid inside the documented range (so that each bound is "
         "computed once per shard and reused) x real member (seeded) x dimension 1-4 x starting point.  Non-trivial = real "
         "performance >= 50% of the bound; distinct by case JSON.")
 TRUSTED = ["the numpy re-implementations of the methods in vf/checks/c09.py (from the docstrings)", "vf/members.py", "CLARABEL"]
-ASSUMPTIONS = ["generated members are a subset of each class; the largest ratio reached per family is reported in the evidence"]
+ASSUMPTIONS = ["bounds are computed with CLARABEL also for the two examples that call PEP.solve() without forwarding a solver (the default is redirected while the bound is computed)",
+               "generated members are a subset of each class; the largest ratio reached per family is reported in the evidence"]
 
 Lg = st.sampled_from([1, 2, 0.5, 3])
 TAU = {}
@@ -35,8 +43,23 @@ def tau_of(module, fname, kwargs):
     if key not in TAU:
         mod = importlib.import_module(module)
         fn = getattr(mod, fname)
-        with prog.quiet():
-            out = fn(verbose=-1, solver="CLARABEL", **kwargs)
+        # Two examples (wc_gradient_descent_lc, which has no solver argument, and wc_gradient_descent_quadratics, which
+        # accepts one but does not forward it) call PEP.solve() without a solver and would get SCS, whose ~1e-4 accuracy is
+        # too coarse for this comparison; the default is therefore redirected to CLARABEL while the bound is computed.
+        from PEPit import PEP
+        orig = PEP.solve
+
+        def solve(self, *a, **kw):
+            if kw.get("solver") is None:
+                kw["solver"] = "CLARABEL"
+            return orig(self, *a, **kw)
+        extra = {"solver": "CLARABEL"} if "solver" in inspect.signature(fn).parameters else {}
+        PEP.solve = solve
+        try:
+            with prog.quiet():
+                out = fn(verbose=-1, **extra, **kwargs)
+        finally:
+            PEP.solve = orig
         TAU[key] = out[0]
     return TAU[key]
 
@@ -48,7 +71,7 @@ MI = "PEPit.examples.monotone_inclusions_variational_inequalities"
 TU = "PEPit.examples.tutorials"
 
 FAMILIES = ["gd_nonconvex", "gd", "gd_contraction", "heavy_ball", "agm", "subgradient", "prox_point", "prox_gradient", "frank_wolfe",
-            "halpern", "km", "mono_prox_point", "optimistic_gradient", "past_extragradient", "drs_operators"]
+            "halpern", "km", "mono_prox_point", "optimistic_gradient", "past_extragradient", "drs_operators"] + sorted(c09_more.RUN)
 
 
 @st.composite
@@ -88,6 +111,8 @@ def _case(draw):
         p = {"n": draw(st.integers(1, 5)), "gamma": draw(st.sampled_from([0.25, 0.125])) / L, "L": L}
     elif fam == "drs_operators":
         p = {"L": L, "mu": draw(st.sampled_from([0.1, 0.5, 1.0])), "alpha": draw(st.sampled_from([1.0, 1.3, 0.5])), "theta": draw(st.sampled_from([1.0, 0.9, 1.5]))}
+    if fam in c09_more.PARAMS:
+        p = c09_more.PARAMS[fam](draw, L)
     return {"family": fam, "params": p, "seed": draw(st.integers(0, 10 ** 6)), "n_dim": draw(st.integers(1, 4)),
             "member": draw(st.sampled_from(["extremal", "extremal", "random", "random2"])), "slack": draw(st.sampled_from([1, 1, 1.3]))}
 
@@ -421,6 +446,8 @@ def run_family(case, rng):
         d0 = np.dot(w0 - w1, w0 - w1)
         z0, z1 = T(w0), T(w1)
         return np.dot(z0 - z1, z0 - z1) / d0, MI, "wc_douglas_rachford_splitting", p
+    if fam in c09_more.RUN:
+        return c09_more.RUN[fam](case, rng)
     raise ValueError(fam)
 
 
@@ -442,6 +469,23 @@ def check_case(case, ctx):
     ctx.label("family:" + fam)
     if tau is None:
         ctx.label("bound-is-none")
+        return
+    if isinstance(perf, tuple):
+        # potential-function examples: no normalisation in the model, the returned value is the largest possible increase
+        # final - init of the potential (0 when the potential never increases); compared on the instance scaled to
+        # init + final = 1 (the classes and the method are invariant under that scaling)
+        _, final, init = perf
+        scale = abs(init) + abs(final)
+        if scale <= 1e-12:
+            ctx.label("member-not-applicable")
+            return
+        inc = (final - init) / scale
+        ctx.observe("max_increase:" + fam, inc)
+        if inc > max(tau, 0.0) + 1e-6:
+            ctx.fail("real-run-beats-bound:%s" % fam,
+                     "%s%r returns %.9g but on a real %s member (seed %d, dimension %d) the potential goes from %.9g to %.9g"
+                     % (fname, kwargs, tau, case["member"], case["seed"], case["n_dim"], init, final))
+        ctx.nontrivial(final >= 0.5 * init)
         return
     ratio = perf / tau if tau > 0 else (0.0 if perf <= 1e-12 else float("inf"))
     ctx.observe("max_ratio:" + fam, ratio)
